@@ -117,3 +117,77 @@ def per_filter_attrs(prog, name, seed=None):
             else:
                 out[attr] = ev.eval_at(st, call.args[0])
     return {k: v for k, v in out.items() if v is not None}, f, ev
+
+
+def gabor_supports(ctx, R, which=("freq", "time")):
+    """The advertised Gabor supports are where the Gaussian falls to the threshold eps:
+    |H(w)| = C_f exp(-sigma^2 (w - xi)^2 / 2) = eps  <=>  |w - xi| = sqrt(2 (log C_f - log eps)) / sigma,
+    |h(t)| = C_t exp(-t^2 / 2 sigma^2)      = eps  <=>  |t| = sigma sqrt(2 (log C_t - log eps)),
+    with (C_t, C_f) the unit-gain or unit-L2-norm constants."""
+    prog = ctx.prog
+    SG, XI, EPS = S.sym("SIGMA"), S.sym("XI"), S.sym("EPS")
+    half, two = S.lift(Fraction(1, 2)), S.lift(2)
+    lpi, l2 = S.call("log", S.PI), S.call("log", two)
+    dom = {"SIGMA": [Fraction(2), Fraction(5, 3)], "XI": [Fraction(1, 2)], "EPS": [Fraction(1, 2000), Fraction(1, 100)]}
+    n = 0
+    for l2n in (True, False):
+        attrs, ctor, cev = per_filter_attrs(prog, "GaborFilterBank", {"scale_l2_norm": l2n, "erb": False})
+        selfn = ctor.params[0]
+        sig, xi = attrs.get(selfn + "._stds"), attrs.get(selfn + "._centers_ang")
+        if sig is None or xi is None:
+            raise AnalysisError("%s: per-filter sigma / centre not found in the Gabor constructor" % R)
+
+        def norm(e):
+            e = S.subst(e, {sig: SG})
+            e = S.subst(e, {xi: XI})
+            return S.subst(e, {"pydrobert.speech.config.EFFECTIVE_SUPPORT_THRESHOLD": EPS})
+        if l2n:
+            log_ct = S.sub(S.neg(S.mul(half, S.call("log", SG))), S.mul(S.lift(Fraction(1, 4)), lpi))
+        else:
+            log_ct = S.sub(S.neg(S.mul(half, S.add(l2, lpi))), S.call("log", SG))
+        log_cf = S.add(log_ct, S.add(S.call("log", SG), S.mul(half, S.add(l2, lpi))))
+        mode = "unit L2 norm" if l2n else "unit peak gain"
+        if "freq" in which:
+            sa = attrs.get(selfn + "._supports_ang")
+            if sa is None or not (cc.is_call(sa, "tuple") and len(sa.args) == 3):
+                raise AnalysisError("%s: per-filter angular support not found in the Gabor constructor" % R)
+            lo, hi = norm(sa.args[1]), norm(sa.args[2])
+            r = S.compare(S.add(lo, hi), S.mul(two, XI), domain=dom, expand_logs=True)
+            ctx.check(r["verdict"] == "equal", R, ctor, ctor.node, "Gabor (%s): the frequency support is centred on the filter's centre" % mode,
+                      "frequency support (%s, %s) is not centred on the centre frequency" % (S.show(lo)[:60], S.show(hi)[:60]))
+            got = S.mul(half, S.sub(hi, lo))
+            want = S.truediv(S.call("sqrt", S.mul(two, S.sub(log_cf, S.call("log", EPS)))), SG)
+            r = S.compare(got, want, domain=dom, expand_logs=True)
+            n += 1
+            if r["verdict"] == "equal":
+                ctx.ok(R, ctor.loc(), "Gabor (%s): half-width of the frequency support is sqrt(2 (log C_f - log eps)) / sigma" % mode)
+            elif r["verdict"] == "differ":
+                ctx.bad(R, ctor, ctor.node, "Gabor with %s: the half-width of the advertised frequency support is %s, but the response falls to the "
+                        "threshold at %s (e.g. at %s: %s vs %s); bins outside the advertised support still exceed the threshold, so the truncated "
+                        "response misses more than the threshold allows" % (mode, S.canon(got, True)[:140], S.canon(want, True)[:140], r.get("witness"),
+                                                                            r["values"][0], r["values"][1]), "Gabor frequency support")
+            else:
+                raise AnalysisError("%s: frequency support (%s): %s" % (R, mode, r.get("reason")))
+        if "time" in which:
+            st = attrs.get(selfn + "._supports")
+            if st is None or not (cc.is_call(st, "tuple") and len(st.args) == 3):
+                raise AnalysisError("%s: per-filter temporal support not found in the Gabor constructor" % R)
+            lo, hi = norm(st.args[1]), norm(st.args[2])
+            ctx.check(S.compare(S.add(lo, hi), S.ZERO, domain=dom, expand_logs=True)["verdict"] == "equal", R, ctor, ctor.node,
+                      "Gabor (%s): the temporal support is symmetric about sample 0 (zero phase)" % mode, "temporal support is (%s, %s)" % (S.show(lo)[:60], S.show(hi)[:60]))
+            ok_form = cc.is_call(hi, "int") and cc.is_call(hi.args[1], "ceil")
+            if not ok_form:
+                raise AnalysisError("%s: temporal half-width is not int(ceil(.)): %s" % (R, S.show(hi)[:80]))
+            got = hi.args[1].args[1]
+            want = S.mul(SG, S.call("sqrt", S.mul(two, S.sub(log_ct, S.call("log", EPS)))))
+            r = S.compare(got, want, domain=dom, expand_logs=True)
+            n += 1
+            if r["verdict"] == "equal":
+                ctx.ok(R, ctor.loc(), "Gabor (%s): temporal half-width is ceil(sigma sqrt(2 (log C_t - log eps)))" % mode)
+            elif r["verdict"] == "differ":
+                ctx.bad(R, ctor, ctor.node, "Gabor with %s: the temporal half-width is ceil(%s), but the impulse response falls to the threshold at %s "
+                        "(e.g. at %s: %s vs %s); samples outside the advertised support still exceed the threshold"
+                        % (mode, S.canon(got, True)[:140], S.canon(want, True)[:140], r.get("witness"), r["values"][0], r["values"][1]), "Gabor temporal support")
+            else:
+                raise AnalysisError("%s: temporal support (%s): %s" % (R, mode, r.get("reason")))
+    ctx.floor(R, n, 2 * len(which))
